@@ -40,7 +40,10 @@ ASSUMPTIONS = ['textbook definitions as written in vp/refmodels/poly_exact.py (S
 REQUIRED = ['value.jacobi', 'value.legendre', 'value.cheby1', 'value.cheby2', 'value.cheby3', 'value.cheby4',
             'value.hermite_He', 'value.hermite_H', 'value.laguerre', 'value.dickson1', 'value.dickson2',
             'value.zernike_nm', 'value.Qbfs', 'value.Qcon', 'value.Q2d', 'value.xy', 'value.hopkins',
-            'gram.jacobi', 'gram.legendre', 'gram.cheby', 'gram.zernike', 'gram.qbfs-slope', 'gram.q2d-gradient']
+            'gram.jacobi', 'gram.legendre', 'gram.cheby', 'gram.zernike', 'gram.qbfs-slope', 'gram.q2d-gradient',
+            'value.jacobi_seq', 'value.legendre_seq', 'value.cheby1_seq', 'value.cheby2_seq', 'value.cheby3_seq', 'value.cheby4_seq',
+            'value.hermite_He_seq', 'value.hermite_H_seq', 'value.laguerre_seq', 'value.dickson1_seq', 'value.dickson2_seq',
+            'value.Qbfs_seq', 'value.Qcon_seq', 'value.zernike_nm_seq.norm', 'value.zernike_nm_seq.nonorm', 'value.Q2d_seq', 'value.xy_seq']
 
 CTX = None
 WORST = {}          # monitor -> worst err/tol seen (reported as a note: distance to the threshold)
@@ -347,14 +350,421 @@ def post_hopkins(token, args, kwargs, result):
         CTX.violation(f'C07/hopkins/value/{ac}', 'hopkins(a,b,c,r,t,H) != cos(a t)|sin(|a| t) r^b H^c', desc, err=err, tol=tol)
 
 
+# ------------------------------------------------------------------------------------------ sequence-form contracts
+# Every *_seq routine is judged row by row against the *definition* of the requested order (same exact oracles and
+# tolerances as the single-order contracts above).  A failing call is then attributed to a mechanism class by re-running
+# the ORIGINAL (unwrapped) routine on neighbouring order lists - the monitors are re-entrancy guarded (a post-condition
+# runs inside contracts.quiet()), so these diagnostic calls are neither counted nor monitored:
+#   one-index:  dense list 0..max wrong too           -> list-independent   C07/<fn>/value/<param class>/<order class>
+#               dense right, requesting the omitted order o in addition repairs it -> C07/<fn>/value/omits-order-<o>  (o in 0,1,2)
+#               (any one of several repairs it -> .../omits-orders-<o1,o2..>: the defect needs all of them omitted)
+#               dense right, only adding all of 0,1,2 fixes  -> .../omits-low-orders ;  otherwise .../gap-above-order-2
+#               dense wrong but the singleton [n] right      -> .../with-companion-orders
+#   two-index:  the singleton [(n,m)] wrong too        -> list-independent   C07/<fn>/value/<row class>
+#               else the first other requested term e that reproduces the failure in the two-term list [e,f] / [f,e]
+#                                                      -> C07/<fn>/value/<option class>/after-|before-<relation of e to f>
+ORIG = {}                       # routine name -> original (unwrapped) callable, for the diagnostic re-runs
+SEQ_ONE = {fam + '_seq': fam for fam in ONE_D}
+SEQ_ALL = list(SEQ_ONE) + ['zernike_nm_seq', 'Q2d_seq', 'xy_seq']
+SEQ_SUB = {**{fam + '_seq': ONE_D[fam][0] for fam in ONE_D}, 'zernike_nm_seq': 'zernike', 'Q2d_seq': 'qpoly', 'xy_seq': 'xy'}
+
+
+def seq_orders(ns):
+    """The order list of a one-index *_seq call, or None when it is outside the documented domain (non-empty,
+    non-negative, strictly ascending: 'sorted polynomial orders')."""
+    try:
+        out = [int(n) for n in ns]
+    except (TypeError, ValueError):
+        return None
+    if not out or out[0] < 0 or any(b <= a for a, b in zip(out, out[1:])):
+        return None
+    return out
+
+
+def list_label(ns):
+    """Static class label of an order list (descriptor / guard keys): which low orders it omits, contiguity."""
+    if len(ns) == 1:
+        return 'singleton:' + nclass(ns[0])
+    om = [o for o in (0, 1, 2) if o not in ns and o < ns[-1]]
+    base = 'starts>=3' if ns[0] >= 3 else ('has-0-1-2' if not om else 'omits-' + ','.join(str(o) for o in om))
+    return base + (':contiguous' if ns == list(range(ns[0], ns[-1] + 1)) else ':gapped')
+
+
+def short(lst, n=12):
+    lst = [list(e) if isinstance(e, tuple) else e for e in lst]
+    return lst if len(lst) <= n else lst[:n] + ['...(%d)' % len(lst)]
+
+
+def seq_shape_ok(fn, result, want, desc, xc):
+    got = np.shape(result)
+    if got != want:
+        CTX.violation(f'C07/{fn}/shape/x={xc}', f'{fn} returned shape {got}, expected (len(orders), *coordinate shape) = {want}', desc,
+                      got_shape=list(got), want_shape=list(want))
+        return False
+    return True
+
+
+def row_err(got, ref):
+    with np.errstate(all='ignore'):
+        return float(np.max(np.abs(got - ref))) if np.all(np.isfinite(got)) else float('inf')
+
+
+def post_seq_1d(fn):
+    fam = SEQ_ONE[fn]
+    sub, npar, exact = ONE_D[fam]
+    mon = 'value.' + fn
+
+    def post(token, args, kwargs, result):
+        names = ['ns'] + ['alpha', 'beta'][:npar] + ['x']
+        a = dict(zip(names, args))
+        a.update(kwargs)
+        ns = seq_orders(a['ns'])
+        if ns is None:
+            CTX.skip(f'{fn}: order list empty / negative / not strictly ascending / not re-iterable (out of the documented domain)')
+            return
+        x = a['x']
+        if isinstance(x, np.generic):
+            x = np.asarray(x)           # numpy scalar (2*r**2-1 of a 0-D r inside zernike_nm_seq): a 0-D coordinate
+        if not isinstance(x, np.ndarray) or x.dtype.kind != 'f':
+            CTX.skip(f'{fn}: coordinates are not a floating ndarray (out of the documented domain)')
+            return
+        params = tuple(a[k] for k in names[1:-1])
+        k = len(ns)
+        desc = {'fn': fn, 'ns': short(ns), 'params': [float(v) for v in params], 'x': xclass(x), 'shape': list(x.shape),
+                'dtype': str(x.dtype), 'list': list_label(ns)}
+        orders = ns
+        if fam == 'Qbfs' and ns[-1] > QBFS_EXACT_MAX:
+            CTX.skip('Qbfs exact (Gram-Schmidt) oracle limited to n<=%d; covered by the slope Gram monitor' % QBFS_EXACT_MAX)
+            orders = [n for n in ns if n <= QBFS_EXACT_MAX]
+        CTX.observe(mon)
+        if not seq_shape_ok(fn, result, (k, *x.shape), desc, xclass(x)):
+            return
+        xf = x.ravel()
+        if xf.size == 0 or not orders:
+            return
+        R = np.asarray(result).reshape(k, -1)
+        cheap = xf.size <= 64 and all(cheap_point(E.rat(v)) for v in xf)
+        idx = pick_indices(xf.size, ns[-1], cheap)
+        use = [i for i in idx if np.isfinite(xf[i])]
+        if len(use) < len(idx):
+            CTX.skip('non-finite coordinate', len(idx) - len(use))
+        if not use:
+            return
+        qs = [E.rat(xf[i]) for i in use]
+        pr = tuple(E.rat(v) for v in params)
+        f32 = is_f32(x, result)
+        rtol = RT32 if f32 else RT64
+        refs = {}
+
+        def ref_of(n):
+            if n not in refs:
+                vals = np.array([exact(n, pr, q) for q in qs])
+                sc = max(1.0, float(np.max(np.abs(vals))))
+                for j in (n - 1, n - 2):
+                    if j >= 0:
+                        sc = max(sc, max(abs(exact(j, pr, q)) for q in qs))
+                refs[n] = (vals, sc)
+            return refs[n]
+
+        bad, worst = [], None
+        pos = {n: i for i, n in enumerate(ns)}
+        for n in orders:
+            ref, sc = ref_of(n)
+            got = R[pos[n], use].astype(float)
+            err = row_err(got, ref)
+            tol = rtol * sc
+            _track(mon + ('.f32' if f32 else ''), err, tol)
+            if not err <= tol:
+                bad.append(n)
+                if worst is None:
+                    j = int(np.argmax(np.abs(got - ref))) if math.isfinite(err) else 0
+                    worst = dict(order=n, err=err, tol=tol, at=float(xf[use[j]]), got=float(got[j]), ref=float(ref[j]))
+        if not bad:
+            return
+        b = bad[0]
+
+        def fails(lst):
+            """Does the original routine, asked for the order list `lst`, return a wrong row for order b?"""
+            try:
+                with np.errstate(all='ignore'):
+                    out = np.asarray(ORIG[fn](lst, *params, x))
+                if out.shape != (len(lst), *x.shape):
+                    return True
+                ref, sc = ref_of(b)
+                return not row_err(out.reshape(len(lst), -1)[lst.index(b), use].astype(float), ref) <= rtol * sc
+            except Exception:  # noqa
+                return True
+
+        top = ns[-1]
+        dense = list(range(top + 1))
+        label = None
+        if ns == dense or fails(dense):
+            if k > 1 and not fails([b]):
+                label = 'with-companion-orders'
+        else:
+            low = [o for o in (0, 1, 2) if o not in ns and o < top]
+            fixers = [o for o in low if not fails(sorted(ns + [o]))]       # requesting which omitted low order repairs the row?
+            if len(fixers) == 1:
+                label = f'omits-order-{fixers[0]}'
+            elif fixers:                                                    # any one of them repairs it: needs all of them omitted
+                label = 'omits-orders-' + ','.join(str(o) for o in fixers)
+            else:
+                label = 'omits-low-orders' if (len(low) > 1 and not fails(sorted(ns + low))) else 'gap-above-order-2'
+        if label is None:
+            pc = jac_pclass(*[float(v) for v in params]) if fam == 'jacobi' else ''
+            key = '/'.join(s for s in ['C07', fn, 'value', pc, nclass(b), 'f32' if f32 else ''] if s)
+            what = f'{fn}: the row of a requested order differs from the closed-form definition of that order (for the dense list 0..max too)'
+        else:
+            key = f'C07/{fn}/value/{label}'
+            what = (f'{fn}: the row of a requested order differs from the closed-form definition of that order although the routine is '
+                    f'right for another order list containing it ({label})')
+        CTX.violation(key, what, desc, failing_orders=bad[:8], **worst)
+    return post
+
+
+def zmclass(m):
+    return 'm=0' if m == 0 else ('m>0' if m > 0 else 'm<0')
+
+
+def nm_relation(e, f):
+    if e[0] == f[0] and abs(e[1]) == abs(f[1]):
+        return 'term-of-same-n-and-|m|'          # the opposite-sign partner or a repeat of the term itself
+    if abs(e[1]) == abs(f[1]):
+        return 'term-of-same-|m|-other-n'
+    return 'term-of-other-|m|'
+
+
+def two_index_verdict(fn, mon, entries, got, ref, scales, rtol, f32, rowclass, relation, recall, optclass, what, desc):
+    """Row-by-row comparison of a two-index *_seq result (got, ref: (k, npts)) and mechanism attribution of a failure.
+    recall(lst) -> (len(lst), npts) rows of the ORIGINAL routine for the term list lst (None when it raises)."""
+    bad, worst = [], None
+    for j in range(len(entries)):
+        err = row_err(got[j], ref[j])
+        tol = rtol * scales[j]
+        _track(mon + ('.f32' if f32 else ''), err, tol)
+        if not err <= tol:
+            bad.append(j)
+            if worst is None:
+                worst = dict(term=list(entries[j]), row=j, err=err, tol=tol)
+    if not bad:
+        return
+    j = bad[0]
+    f = entries[j]
+
+    def fails(lst, pos):
+        rows = recall(lst)
+        return rows is None or rows.shape[0] != len(lst) or not row_err(rows[pos], ref[j]) <= rtol * scales[j]
+
+    if len(entries) == 1 or fails([f], 0):
+        key = '/'.join(s for s in [f'C07/{fn}/value', rowclass(f), 'f32' if f32 else ''] if s)
+        what = what + ' (for the single-term list too)'
+    else:
+        label, seen = None, set()
+        for i, e in enumerate(entries):
+            tag = (e, i < j)
+            if i == j or tag in seen or len(seen) >= 48:
+                continue
+            seen.add(tag)
+            if fails([e, f], 1) if i < j else fails([f, e], 0):
+                label = ('after-' if i < j else 'before-') + relation(e, f)
+                break
+        key = '/'.join(s for s in [f'C07/{fn}/value', optclass, label or 'list-dependent'] if s)
+        what = what + ' although the routine is right when the term is requested alone'
+    CTX.violation(key, what, desc, failing_terms=[list(entries[i]) for i in bad[:8]], **worst)
+
+
+def _nm_list(nms):
+    try:
+        return [(int(n), int(m)) for n, m in nms]
+    except (TypeError, ValueError):
+        return None
+
+
+def _same_shape_coords(fn, r, t):
+    if not (isinstance(r, np.ndarray) and isinstance(t, np.ndarray)) or r.dtype.kind != 'f' or t.dtype.kind != 'f':
+        CTX.skip(f'{fn}: coordinates are not floating ndarrays (out of the documented domain)')
+        return False
+    if r.shape != t.shape:
+        CTX.skip(f'{fn}: r and t of different shapes (the result is documented as (k, *shape) of one common shape)')
+        return False
+    return True
+
+
+def post_zernike_seq(token, args, kwargs, result):
+    fn = 'zernike_nm_seq'
+    a = dict(zip(['nms', 'r', 't', 'norm'], args))
+    a.update(kwargs)
+    nms, r, t, norm = _nm_list(a['nms']), a['r'], a['t'], bool(a.get('norm', True))
+    if not nms or any(abs(m) > n or (n - abs(m)) % 2 for n, m in nms):
+        CTX.skip(f'{fn}: term list empty / not re-iterable / contains a non-Zernike index (out of domain)')
+        return
+    if not _same_shape_coords(fn, r, t):
+        return
+    mon = 'value.zernike_nm_seq.' + ('norm' if norm else 'nonorm')
+    k = len(nms)
+    desc = {'fn': fn, 'nms': short(nms), 'norm': norm, 'x': xclass(r), 'shape': list(r.shape), 'dtype': str(r.dtype)}
+    CTX.observe(mon)
+    if not seq_shape_ok(fn, result, (k, *r.shape), desc, xclass(r)):
+        return
+    rf, tf = r.ravel(), t.ravel()
+    if rf.size == 0:
+        return
+    cheap = rf.size <= 64 and all(cheap_point(E.rat(v)) for v in rf)
+    idx = pick_indices(rf.size, max(n for n, m in nms), cheap)
+    f32 = is_f32(r, t, result)
+
+    def nrm(n, m):
+        return math.sqrt(E.zernike_norm2(n, m)) if norm else 1.0
+    ref = np.array([[float(E.zernike_R(n, abs(m), E.rat(rf[i]))) * _trig(m, float(tf[i])) * nrm(n, m) for i in idx] for n, m in nms])
+    scales = [max(1.0, nrm(n, m)) for n, m in nms]
+    got = np.asarray(result).reshape(k, -1)[:, idx].astype(float)
+
+    def recall(lst):
+        try:
+            with np.errstate(all='ignore'):
+                return np.asarray(ORIG[fn](lst, r, t, norm=norm)).reshape(len(lst), -1)[:, idx].astype(float)
+        except Exception:  # noqa
+            return None
+    nn = 'norm' if norm else 'nonorm'
+    two_index_verdict(fn, mon, nms, got, ref, scales, RT32 if f32 else RT64, f32,
+                      lambda f: f'{zmclass(f[1])}/{nn}/{nclass((f[0] - abs(f[1])) // 2, "nj")}', nm_relation, recall, nn,
+                      'zernike_nm_seq: a row differs from R_n^m(r) cos/sin(m t) [* sqrt(2(n+1)/(1+delta_m0))] of the requested (n,m)', desc)
+
+
+def post_q2d_seq(token, args, kwargs, result):
+    fn = 'Q2d_seq'
+    a = dict(zip(['nms', 'r', 't'], args))
+    a.update(kwargs)
+    nms, r, t = _nm_list(a['nms']), a['r'], a['t']
+    if not nms or any(n < 0 for n, m in nms):
+        CTX.skip(f'{fn}: term list empty / not re-iterable / negative order (out of domain)')
+        return
+    if not _same_shape_coords(fn, r, t):
+        return
+    mon = 'value.Q2d_seq'
+    k = len(nms)
+    desc = {'fn': fn, 'nms': short(nms), 'x': xclass(r), 'shape': list(r.shape), 'dtype': str(r.dtype)}
+    CTX.observe(mon)
+    if not seq_shape_ok(fn, result, (k, *r.shape), desc, xclass(r)):
+        return
+    rf, tf = r.ravel(), t.ravel()
+    if rf.size == 0:
+        return
+    cheap = rf.size <= 64 and all(cheap_point(E.rat(v)) for v in rf)
+    idx = pick_indices(rf.size, max(n + abs(m) // 2 for n, m in nms), cheap)
+    f32 = is_f32(r, t, result)
+    ref, scales = [], []
+    for n, m in nms:
+        row, sc = [], 1.0
+        for i in idx:
+            q = E.rat(rf[i])
+            rp, nv = E.q_radial(n, m, q)
+            rad = float(rp) / math.sqrt(nv)
+            sc = max(sc, abs(rad))
+            if n >= 1:
+                rp1, nv1 = E.q_radial(n - 1, m, q)
+                sc = max(sc, abs(float(rp1) / math.sqrt(nv1)))
+            row.append(rad * _trig(m, float(tf[i])))
+        ref.append(row)
+        scales.append(sc)
+    ref = np.array(ref)
+    got = np.asarray(result).reshape(k, -1)[:, idx].astype(float)
+
+    def recall(lst):
+        try:
+            with np.errstate(all='ignore'):
+                return np.asarray(ORIG[fn](lst, r, t)).reshape(len(lst), -1)[:, idx].astype(float)
+        except Exception:  # noqa
+            return None
+    two_index_verdict(fn, mon, nms, got, ref, scales, RT32 if f32 else RT64, f32,
+                      lambda f: f'{q2d_mclass(f[1])}/{nclass(f[0])}', nm_relation, recall, '',
+                      'Q2d_seq: a row differs from the orthonormal-gradient definition (exact Gram-Schmidt) of the requested (n,m)', desc)
+
+
+def xy_relation(e, f):
+    if e == f:
+        return 'repeat-of-the-term'
+    if e[0] == f[0]:
+        return 'term-of-same-x-exponent'
+    if e[1] == f[1]:
+        return 'term-of-same-y-exponent'
+    return 'term-of-other-exponents'
+
+
+def post_xy_seq(token, args, kwargs, result):
+    fn = 'xy_seq'
+    a = dict(zip(['mns', 'x', 'y', 'cartesian_grid'], args))
+    a.update(kwargs)
+    mns, x, y, cart = _nm_list(a['mns']), a['x'], a['y'], bool(a.get('cartesian_grid', True))
+    if not mns or any(m < 0 or n < 0 for m, n in mns):
+        CTX.skip(f'{fn}: exponent list empty / not re-iterable / negative exponent (out of domain)')
+        return
+    if not (isinstance(x, np.ndarray) and isinstance(y, np.ndarray)) or x.dtype.kind != 'f' or y.dtype.kind != 'f':
+        CTX.skip(f'{fn}: coordinates are not floating ndarrays (out of the documented domain)')
+        return
+    if cart and x.ndim < 2:
+        CTX.skip('xy_seq: cartesian_grid=True with 0-D/1-D coordinates (axes-of-a-grid vs list-of-points reading is ambiguous; C08 ledger)')
+        return
+    if cart and (x.ndim != 2 or y.ndim != 2):
+        CTX.skip('xy_seq: cartesian_grid=True with coordinates that are not 2-D (out of the documented domain)')
+        return
+    xg, yg = (x[0:1, :], y[:, 0:1]) if cart else (x, y)      # documented separable treatment arr[y, x]
+    try:
+        want = tuple(np.broadcast_shapes(xg.shape, yg.shape))
+    except ValueError:
+        CTX.skip('xy_seq: x and y do not broadcast (out of domain)')
+        return
+    mon = 'value.xy_seq'
+    k = len(mns)
+    desc = {'fn': fn, 'mns': short(mns), 'cartesian_grid': cart, 'xshape': list(x.shape), 'yshape': list(y.shape), 'dtype': str(x.dtype)}
+    CTX.observe(mon)
+    xc = ('cartesian:' if cart else 'general:') + xclass(x)
+    if not hasattr(result, '__len__') or len(result) != k:
+        CTX.violation(f'C07/{fn}/shape/x={xc}', f'{fn} returned {len(result) if hasattr(result, "__len__") else type(result).__name__} modes for {k} requested terms', desc)
+        return
+    for mode in result:
+        if np.shape(mode) != want:
+            CTX.violation(f'C07/{fn}/shape/x={xc}', f'{fn} returned a mode of shape {np.shape(mode)}, expected {want}', desc,
+                          got_shape=list(np.shape(mode)), want_shape=list(want))
+            return
+    xb, yb = np.broadcast_arrays(xg, yg)
+    xf, yf = xb.ravel(), yb.ravel()
+    if xf.size == 0:
+        return
+    idx = pick_indices(xf.size, max(m + n for m, n in mns), xf.size <= 64)
+    ref = np.array([[float(E.monomial_xy(m, n, xf[i], yf[i])) for i in idx] for m, n in mns])
+    scales = [max(1.0, float(np.max(np.abs(row)))) for row in ref]
+    got = np.array([np.asarray(mode).ravel()[idx] for mode in result], dtype=float)
+    f32 = is_f32(x, y, *result)
+
+    def recall(lst):
+        try:
+            with np.errstate(all='ignore'):
+                return np.array([np.asarray(mode).ravel()[idx] for mode in ORIG[fn](lst, x, y, cartesian_grid=cart)], dtype=float)
+        except Exception:  # noqa
+            return None
+    cg = 'cartesian' if cart else 'general'
+    two_index_verdict(fn, mon, mns, got, ref, scales, RT32 if f32 else RT64, f32,
+                      lambda f: f'{cg}/{"zero-exponent" if (f[0] == 0 or f[1] == 0) else "positive-exponents"}', xy_relation, recall, cg,
+                      'xy_seq: a mode differs from x^m y^n of the requested (m,n)', desc)
+
+
 def install():
     import prysm.polynomials  # noqa  (loads every submodule)
+    mods = sys.modules
+    for fn in SEQ_ALL:
+        ORIG[fn] = getattr(mods['prysm.polynomials.' + SEQ_SUB[fn]], fn)
     for fam, (sub, _, _) in ONE_D.items():
-        attach(sys.modules['prysm.polynomials.' + sub], fam, post=post_1d(fam))
-    attach(sys.modules['prysm.polynomials.zernike'], 'zernike_nm', post=post_zernike)
-    attach(sys.modules['prysm.polynomials.qpoly'], 'Q2d', post=post_q2d)
-    attach(sys.modules['prysm.polynomials.xy'], 'xy', post=post_xy)
-    attach(sys.modules['prysm.polynomials'], 'hopkins', post=post_hopkins)
+        attach(mods['prysm.polynomials.' + sub], fam, post=post_1d(fam))
+    attach(mods['prysm.polynomials.zernike'], 'zernike_nm', post=post_zernike)
+    attach(mods['prysm.polynomials.qpoly'], 'Q2d', post=post_q2d)
+    attach(mods['prysm.polynomials.xy'], 'xy', post=post_xy)
+    attach(mods['prysm.polynomials'], 'hopkins', post=post_hopkins)
+    for fn in SEQ_ONE:
+        attach(mods['prysm.polynomials.' + SEQ_SUB[fn]], fn, post=post_seq_1d(fn))
+    attach(mods['prysm.polynomials.zernike'], 'zernike_nm_seq', post=post_zernike_seq)
+    attach(mods['prysm.polynomials.qpoly'], 'Q2d_seq', post=post_q2d_seq)
+    attach(mods['prysm.polynomials.xy'], 'xy_seq', post=post_xy_seq)
 
 
 # ------------------------------------------------------------------------------------------ workload pieces
@@ -658,6 +1068,267 @@ def xy_hopkins_unit(ctx, P, rng):
                         P.hopkins(a, b, c, r.reshape(2, 3), t.reshape(2, 3), np.float64(0.5))
 
 
+# ------------------------------------------------------------------------------------------ sequence-form workload
+SEQ_PARAMS = {
+    'jacobi_seq': [(0.25, -0.25), (2.5, -0.75), (-0.5, 0.5), (0.0, 4.0), (-0.875, -0.125), (0.0, 0.0), (-0.25, -0.75), (0.5, 0.5)],
+    'laguerre_seq': [(0.5,), (0.0,), (-0.875,), (4.75,)],
+    'dickson1_seq': [(0.75,), (0.0,), (-1.0,)],
+    'dickson2_seq': [(0.75,), (0.0,), (-1.0,)],
+}
+
+
+def seq_order_lists(ctx, rng, top):
+    """Hostile order lists for the one-index *_seq routines: (kind, ascending list).  Smallest first."""
+    import itertools
+    out = []
+    S = ctx.pick(7, 8)
+    for r in range(1, S + 1):                                          # ALL non-empty ascending subsets of {0..S-1}
+        out += [('subset', list(c)) for c in itertools.combinations(range(S), r)]
+    out += [('singleton', [n]) for n in range(S, top + 1)]             # singletons of every order up to the bound
+    for N in (7, 8, 12, 25, top):
+        out.append(('dense', list(range(N + 1))))
+    for s in (1, 2, 3, 4, 5, 9):
+        out.append(('contiguous-from-%s' % (s if s < 3 else '>=3'), list(range(s, s + 6))))
+    out.append(('contiguous-from->=3', list(range(3, top + 1))))
+    fixed = [[0, top], [1, top], [2, top], [3, top], [0, 1, top], [0, 2, top], [1, 2, top], [0, 1, 2, top], [0, 1, 3, top - 1, top],
+             [3, 7], [3, 4, 9], [4, 5, 6, 20], [7, 8], [5, 11, 23], [0, 2, 5, 11, 23, top], [1, 3, 6, 7, 30], [2, 4, 7, 12, 13, 14, 39],
+             [3, 5, 8, 13, 21, 34], [0, 9], [1, 9], [2, 9], [0, 1, 9], [0, 1, 2, 9, 10], [0, 1, 2, 4, 6, 8, 10],
+             list(range(0, top + 1, 2)), list(range(1, top, 2)), list(range(2, 30, 3)), list(range(3, top + 1, 5))]
+    out += [('gapped', sorted(set(v for v in l if v <= top))) for l in fixed]
+    for _ in range(ctx.pick(16, 150)):
+        k = int(rng.integers(1, 9))
+        tp = int(rng.choice([8, 12, 20, 40, top]))
+        out.append(('random', sorted(int(v) for v in rng.choice(tp + 1, size=min(k, tp + 1), replace=False))))
+    return out
+
+
+def seq1d_unit(ctx, P, fn, params, lists, rng, part, nparts, small=False):
+    fam = SEQ_ONE[fn]
+    lo, hi = domain(fam)
+    g = grid_for(fam)
+    f = getattr(P, fn)
+    for li, (kind, ns) in enumerate(lists):
+        if li % nparts != part:
+            continue
+        k, top = len(ns), ns[-1]
+        if small and top > 12:
+            continue
+        npts = 6 if (k <= 30 and top <= 60) else 3
+        x1 = np.concatenate([[lo, hi], rng.choice(g, size=npts - 2, replace=False)])
+        coords = [('1d', x1)]
+        d0 = ('0d', np.asarray(float(rng.choice(g))))
+        d2 = ('2d', dyadic(rng, lo, hi, (2, 3), den=16))
+        others = [d0, d2, ('2d-lead=k', dyadic(rng, lo, hi, (k, 2), den=16)), ('3d', dyadic(rng, lo, hi, (2, 1, 2), den=16)),
+                  ('1d-len1', dyadic(rng, lo, hi, (1,), den=16)), ('1d-len=k', dyadic(rng, lo, hi, (k,), den=16)),
+                  ('1d-noncontig', dyadic(rng, lo, hi, (8,), den=16)[::2]), ('2d-col', dyadic(rng, lo, hi, (3, 1), den=16))]
+        if kind == 'subset':
+            coords += [d0, d2]
+            if top <= 4 or li % 5 == 0:
+                coords.append(others[2 + li % 6])
+        elif k <= 12:
+            coords.append(others[li % len(others)])
+        if top <= 12 and li % 4 == 1:
+            coords.append(('f32', dyadic(rng, lo, hi, (5,), den=16).astype(np.float32)))
+        cont = {2: tuple(ns), 4: np.array(ns), 6: range(ns[0], top + 1)}.get(li % 7, ns)
+        if isinstance(cont, range) and list(cont) != ns:
+            cont = ns
+        for cls, x in coords:
+            desc = {'wl': 'seq', 'fn': fn, 'ns': short(ns), 'kind': kind, 'list': list_label(ns), 'params': list(params), 'xcls': cls,
+                    'orders_as': type(cont).__name__, 'class': f'{fn}:{kind}:{cls}'}
+            ctx.case(desc, nontrivial=top >= 1)
+            with ctx.guard(f'C07/{fn}/{list_label(ns)}/x={cls}', desc):
+                f(cont, *params, x)
+
+
+def nm_coords(rng, k, it, dom01=True):
+    """Coordinate classes (r, t of one common shape) for the two-index families."""
+    def rr(shape):
+        return np.asarray(dyadic(rng, 0, 1, shape, den=32))
+
+    def tt(shape):
+        return np.asarray(rng.uniform(0, 2 * np.pi, shape))
+    base = [('0d', rr(()), tt(())), ('1d', np.concatenate([[0.0, 1.0], rr((3,))]), tt((5,))), ('2d', rr((2, 3)), tt((2, 3)))]
+    extra = [('3d', rr((2, 1, 2)), tt((2, 1, 2))), ('1d-len=k', rr((k,)), tt((k,))), ('2d-lead=k', rr((k, 2)), tt((k, 2))),
+             ('f32', rr((4,)).astype(np.float32), tt((4,)).astype(np.float32)), ('1d-len1', rr((1,)), tt((1,)))]
+    return base, extra[it % len(extra)]
+
+
+def zernike_term_lists(ctx, rng):
+    nq = ctx.pick(6, 10)
+    ns_ = ctx.pick(8, 14)
+    valid = [(n, m) for n in range(nq + 1) for m in range(-n, n + 1, 2)]
+    L = [('singleton', [(n, m)]) for n in range(ns_ + 1) for m in range(-n, n + 1, 2)]
+    for n, m in valid:
+        if m > 0:
+            L += [('pair+m-m', [(n, m), (n, -m)]), ('pair-m+m', [(n, -m), (n, m)])]
+    L += [('repeated', [nm, nm]) for nm in valid[::2]]
+    L += [('repeated', [(3, 1), (3, -1), (3, 1)]), ('repeated', [(4, -2), (2, 0), (4, -2), (4, 2)]), ('repeated', [(2, 0), (2, 0), (0, 0)])]
+    L += [('m=0-only', [(4, 0), (0, 0), (2, 0)]), ('m=0-only', [(0, 0)]), ('m=0-only', [(6, 0), (2, 0)]), ('m=0-only', [(0, 0), (2, 0), (4, 0), (6, 0)]),
+          ('m=0-only', [(8, 0)]), ('m=0-mixed', [(2, 0), (2, 2), (2, -2), (4, 0), (4, 2), (4, -2)]), ('m=0-mixed', [(3, -1), (4, 0), (3, 1), (0, 0)])]
+    L += [('same-|m|-unsorted', [(5, 1), (1, 1), (3, -1), (7, 1)]), ('same-|m|-unsorted', [(6, -2), (2, 2), (4, 2), (2, -2)]),
+          ('omits-low-radial', [(5, 1), (7, -1)]), ('omits-low-radial', [(6, 2)]), ('omits-low-radial', [(8, 2), (10, -2)]),
+          ('omits-low-radial', [(7, 3), (9, 3), (9, -3)]), ('omits-low-radial', [(6, 0), (8, 0)])]
+    low = [(n, m) for n, m in valid if n <= 4]
+    L += [('full-low-set', low), ('full-low-set-reversed', low[::-1]), ('full-set', valid), ('full-set-reversed', valid[::-1])]
+    for _ in range(ctx.pick(24, 240)):
+        k = int(rng.integers(2, 10))
+        pickd = [valid[i] for i in rng.integers(0, len(valid), size=k)]          # with replacement: repeats occur
+        if rng.random() < 0.5:
+            n, m = pickd[0]
+            pickd.insert(int(rng.integers(1, len(pickd) + 1)), (n, -m))           # both signs of one term
+        L.append(('random-shuffled', pickd))
+    return L
+
+
+def zernike_seq_unit(ctx, P, lists, rng, part, nparts):
+    for li, (kind, nms) in enumerate(lists):
+        if li % nparts != part:
+            continue
+        k = len(nms)
+        base, extra = nm_coords(rng, k, li)
+        coords = base + ([extra] if li % 3 == 0 else [])
+        as_lists = li % 4 == 3
+        for cls, r, t in coords:
+            for opt, kw in (('norm=True', {'norm': True}), ('norm=False', {'norm': False}), ('norm-default', {})):
+                if opt == 'norm-default' and cls != '1d':
+                    continue
+                if cls == 'f32' and max(n for n, m in nms) > 10:
+                    continue
+                desc = {'wl': 'seq', 'fn': 'zernike_nm_seq', 'nms': short(nms), 'kind': kind, 'opt': opt, 'xcls': cls,
+                        'class': f'zernike_nm_seq:{kind}:{opt}:{cls}'}
+                ctx.case(desc, nontrivial=max(n for n, m in nms) >= 1)
+                with ctx.guard(f'C07/zernike_nm_seq/{kind}/{opt}/x={cls}', desc):
+                    P.zernike_nm_seq([list(e) for e in nms] if as_lists else nms, r, t, **kw)
+
+
+def q2d_term_lists(ctx, rng):
+    N, M = ctx.pick((6, 5), (12, 10))
+    L = [('singleton', [(n, m)]) for m in range(-M, M + 1) for n in range(N + 1)]
+    for m in range(1, M + 1):
+        for n in (0, 1, 2, 3, 4, N):
+            L += [('pair+m-m', [(n, m), (n, -m)]), ('pair-m+m', [(n, -m), (n, m)])]
+    L += [('repeated', [(n, m), (n, m)]) for n, m in ((0, 0), (2, 0), (1, 1), (3, 1), (4, -1), (2, 2), (3, -3), (0, 4))]
+    L += [('repeated', [(3, 1), (3, -1), (3, 1)]), ('repeated', [(2, -2), (2, 0), (2, -2), (2, 2)])]
+    L += [('m=0-only', [(4, 0), (0, 0), (2, 0)]), ('m=0-only', [(0, 0)]), ('m=0-only', [(5, 0), (1, 0)]), ('m=0-only', [(0, 0), (1, 0), (2, 0), (3, 0)]),
+          ('m=0-only', [(N, 0)]), ('m=0-mixed', [(2, 0), (2, 2), (2, -2), (1, 0), (1, 1), (1, -1)]), ('m=0-mixed', [(3, -1), (4, 0), (3, 1), (0, 0)])]
+    for top in (0, 1, 2, 3, 4, 5):          # the m = 1 special branch (P2, P3 hard-coded) and the general branch, by largest order requested
+        L += [('m=1-max-n', [(top, 1)]), ('m=1-max-n', [(top, -1), (0, 1)]), ('m>=2-max-n', [(top, 2), (0, -2)]), ('m>=2-max-n', [(top, -3)])]
+    L += [('same-|m|-unsorted', [(5, 1), (1, 1), (3, -1), (0, 1)]), ('same-|m|-unsorted', [(4, -2), (0, 2), (2, 2), (1, -2)]),
+          ('omits-low-orders', [(3, 1), (5, -1)]), ('omits-low-orders', [(4, 2)]), ('omits-low-orders', [(5, 0), (3, 0)]), ('omits-low-orders', [(2, 3), (6, 3), (6, -3)])]
+    full = [(n, m) for n in range(4) for m in range(-3, 4)]
+    L += [('full-low-set', full), ('full-low-set-reversed', full[::-1])]
+    for _ in range(ctx.pick(24, 240)):
+        k = int(rng.integers(2, 9))
+        pickd = [(int(rng.integers(0, N + 1)), int(rng.integers(-M, M + 1))) for _ in range(k)]
+        if rng.random() < 0.5:
+            n, m = pickd[0]
+            pickd.insert(int(rng.integers(1, len(pickd) + 1)), (n, -m))
+        if rng.random() < 0.25:
+            pickd.append(pickd[int(rng.integers(len(pickd)))])
+        L.append(('random-shuffled', pickd))
+    return L
+
+
+def q2d_seq_unit(ctx, P, lists, rng, part, nparts):
+    for li, (kind, nms) in enumerate(lists):
+        if li % nparts != part:
+            continue
+        k = len(nms)
+        base, extra = nm_coords(rng, k, li)
+        coords = base + ([extra] if li % 3 == 0 else [])
+        for cls, r, t in coords:
+            if cls == 'f32' and max(n + abs(m) for n, m in nms) > 8:
+                continue
+            desc = {'wl': 'seq', 'fn': 'Q2d_seq', 'nms': short(nms), 'kind': kind, 'xcls': cls, 'class': f'Q2d_seq:{kind}:{cls}'}
+            ctx.case(desc)
+            with ctx.guard(f'C07/Q2d_seq/{kind}/x={cls}', desc):
+                P.Q2d_seq([list(e) for e in nms] if li % 4 == 3 else nms, r, t)
+
+
+def xy_term_lists(ctx, rng, P):
+    M = ctx.pick(5, 8)
+    L = [('singleton', [(m, n)]) for m in range(M + 1) for n in range(M + 1)]
+    L += [('codev-order', [P.xy_j_to_mn(j) for j in range(1, J + 1)]) for J in (1, 3, 6, 15, 28)]
+    L += [('codev-order-skips-piston', [P.xy_j_to_mn(j) for j in range(2, 16)])]
+    L += [('zero-exponents-only', [(0, 0)]), ('zero-exponents-only', [(0, 0), (0, 0)]), ('x-powers-only', [(3, 0), (1, 0), (0, 0), (2, 0)]),
+          ('y-powers-only', [(0, 2), (0, 0), (0, 5)]), ('x-powers-only', [(4, 0)]), ('y-powers-only', [(0, 3)]),
+          ('max-exponents-in-different-terms', [(5, 0), (0, 4), (1, 1)]), ('max-exponents-in-different-terms', [(1, 6), (6, 1)]),
+          ('repeated', [(2, 1), (2, 1)]), ('repeated', [(1, 2), (2, 1), (1, 2)]), ('unsorted', [(3, 3), (0, 1), (2, 0), (1, 1), (0, 0)]),
+          ('omits-low-exponents', [(3, 4), (5, 3)]), ('omits-low-exponents', [(2, 2)]), ('transposed-pair', [(1, 3), (3, 1)])]
+    for _ in range(ctx.pick(24, 240)):
+        k = int(rng.integers(1, 9))
+        pickd = [(int(a), int(b)) for a, b in rng.integers(0, M + 1, size=(k, 2))]
+        if rng.random() < 0.3:
+            pickd.append(pickd[0])
+        L.append(('random-unsorted', pickd))
+    return L
+
+
+def xy_seq_unit(ctx, P, lists, rng, part, nparts):
+    for li, (kind, mns) in enumerate(lists):
+        if li % nparts != part:
+            continue
+        k = len(mns)
+        nx, ny = (k, 3 if k != 3 else 4) if li % 5 == 0 else (int(rng.integers(2, 5)), int(rng.integers(2, 5)))
+        xv = dyadic(rng, -1, 1, (nx,), den=16)
+        yv = dyadic(rng, -1, 1, (ny,), den=16)
+        X, Y = np.meshgrid(xv, yv)
+        grids = [('meshgrid', X, Y, True), ('separable(1,N)/(M,1)', xv.reshape(1, -1), yv.reshape(-1, 1), True),
+                 ('general-2d', dyadic(rng, -1, 1, (ny, nx), den=16), dyadic(rng, -1, 1, (ny, nx), den=16), False),
+                 ('general-1d', dyadic(rng, -1, 1, (4,), den=16), dyadic(rng, -1, 1, (4,), den=16), False),
+                 ('general-0d', np.asarray(dyadic(rng, -1, 1, (), den=16)), np.asarray(dyadic(rng, -1, 1, (), den=16)), False),
+                 ('meshgrid-flag-off', X, Y, False)]
+        extra = [('general-3d', dyadic(rng, -1, 1, (2, 1, 2), den=16), dyadic(rng, -1, 1, (2, 1, 2), den=16), False),
+                 ('general-1d-len=k', dyadic(rng, -1, 1, (k,), den=16), dyadic(rng, -1, 1, (k,), den=16), False),
+                 ('meshgrid-f32', X.astype(np.float32), Y.astype(np.float32), True),
+                 ('meshgrid-1xN', X[:1], Y[:1], True), ('meshgrid-Mx1', X[:, :1], Y[:, :1], True)]
+        sel = grids if (kind != 'singleton' or li % 4 == 0) else [grids[0], grids[2 + li % 4]]
+        for cls, x, y, cart in sel + [extra[li % len(extra)]]:
+            if cls.endswith('f32') and max(m + n for m, n in mns) > 8:
+                continue
+            desc = {'wl': 'seq', 'fn': 'xy_seq', 'mns': short(mns), 'kind': kind, 'xcls': cls, 'class': f'xy_seq:{kind}:{cls}'}
+            ctx.case(desc, nontrivial=max(m + n for m, n in mns) >= 1)
+            with ctx.guard(f'C07/xy_seq/{kind}/x={cls}', desc):
+                P.xy_seq([list(e) for e in mns] if li % 4 == 3 else mns, x, y, **({} if (cart and li % 2) else {'cartesian_grid': cart}))
+
+
+def seq_units(ctx, P):
+    """(callable, weight) units of the sequence-form workload."""
+    units = []
+    NJ = ctx.pick(40, 150)
+    NH = ctx.pick(40, 60)
+    parts = ctx.pick(1, 3)
+
+    def add1d(fn, params, top, weight=2, small=False):
+        lists = seq_order_lists(ctx, ctx.rng('seqlists', fn, params), top)
+        for part in range(parts):
+            units.append((lambda part=part: seq1d_unit(ctx, P, fn, params, lists, ctx.rng('seq', fn, params, part), part, parts, small), weight))
+
+    for ab in SEQ_PARAMS['jacobi_seq'][:ctx.pick(5, 8)]:
+        add1d('jacobi_seq', ab, NJ, 3)
+    add1d('jacobi_seq', JAC_NONDYADIC[0], 12, 1, small=True)
+    for fn in ('legendre_seq', 'cheby1_seq', 'cheby2_seq', 'cheby3_seq', 'cheby4_seq', 'Qcon_seq'):
+        add1d(fn, (), NJ, 3)
+    add1d('Qbfs_seq', (), ctx.pick(40, 60), 3)
+    for fn in ('hermite_He_seq', 'hermite_H_seq'):
+        add1d(fn, (), NH, 2)
+    for fn in ('laguerre_seq', 'dickson1_seq', 'dickson2_seq'):
+        for pa in SEQ_PARAMS[fn][:ctx.pick(3, 4)]:
+            add1d(fn, pa, NH, 2)
+    p2 = ctx.pick(2, 6)
+    zl = zernike_term_lists(ctx, ctx.rng('seqlists', 'zernike'))
+    ql = q2d_term_lists(ctx, ctx.rng('seqlists', 'q2d'))
+    xl = xy_term_lists(ctx, ctx.rng('seqlists', 'xy'), P)
+    for part in range(p2):
+        units.append((lambda part=part: zernike_seq_unit(ctx, P, zl, ctx.rng('seq', 'zernike', part), part, p2), 2))
+        units.append((lambda part=part: q2d_seq_unit(ctx, P, ql, ctx.rng('seq', 'q2d', part), part, p2), 2))
+        units.append((lambda part=part: xy_seq_unit(ctx, P, xl, ctx.rng('seq', 'xy', part), part, p2), 1))
+    ctx.note('seq_workload', {'one_index_lists_per_routine_and_parameter_set': len(seq_order_lists(ctx, ctx.rng('seqlists', 'count'), NJ)),
+                              'zernike_term_lists': len(zl), 'q2d_term_lists': len(ql), 'xy_term_lists': len(xl),
+                              'one_index_max_order': {'jacobi_family': NJ, 'hermite_laguerre_dickson': NH, 'Qbfs': ctx.pick(40, 60)}})
+    return units
+
+
 # ------------------------------------------------------------------------------------------ driver
 def run(ctx):
     global CTX
@@ -747,6 +1418,7 @@ def _run(ctx):
     units.extend(zernike_units(ctx, P, ctx.rng('zernike')))
     units.extend(q_units(ctx, P, ctx.rng('q')))
     add(lambda: xy_hopkins_unit(ctx, P, ctx.rng('xy')), 1)
+    units.extend(seq_units(ctx, P))
 
     # heaviest first, dealt round-robin: deterministic and reasonably balanced
     order = sorted(range(len(units)), key=lambda i: (-units[i][1], i))
